@@ -559,7 +559,22 @@ func (e *Engine) enterLoop(fr *Frame, head *ssa.BasicBlock, s *State) *State {
 	}
 	cells, heaps, all, lf, lcond := e.loopModified(fr, head, s)
 	if all {
+		// an unrestricted havoc inside the loop: everything is unknown at the head, except the
+		// ghost state when the dry run showed it unchanged on every back edge
+		modified := map[string]bool{}
+		for _, h := range heaps {
+			modified[h] = true
+		}
+		saved := map[string]T{}
+		for name, sort := range e.heapSort {
+			if isGhostHeap(name) && !modified[name] {
+				saved[name] = e.heap(s, name, sort)
+			}
+		}
 		e.havocAll(s)
+		for name, t := range saved {
+			s.heaps[name] = t
+		}
 	} else {
 		e.bumpTime(s)
 	}
